@@ -3,24 +3,27 @@
 # current rules; the seeded matrix runs in 4 shards
 cd /verif
 L=${REGRESS_LOGS:-/tmp}
+# every parallel worker gets a work directory of its own (separate cargo target dir and lock), or they serialise on extraction
+W=/verif/.work/par
 for i in 0 1 2 3; do
-  python3 tools/matrix.py /verif/seeded --shard $i/4 --out $L/seeded_shard$i.json > $L/regress_seeded_$i.log 2>&1 &
+  PLSA_WORK=$W/s$i python3 tools/matrix.py /verif/seeded --shard $i/4 --out $L/seeded_shard$i.json > $L/regress_seeded_$i.log 2>&1 &
 done
 wait
 cat $L/regress_seeded_?.log | grep -v conda > $L/regress_seeded.log
 python3 tools/matrix.py /verif/seeded --merge $L/seeded_shard0.json $L/seeded_shard1.json $L/seeded_shard2.json $L/seeded_shard3.json --write-expectations > /dev/null 2>&1
 for c in refactor2 refactor4 refactor5 refactor6 features3 features5 features6; do
-  python3 tools/matrix.py /verif/selftest/$c > $L/regress_$c.log 2>&1 &
+  PLSA_WORK=$W/$c python3 tools/matrix.py /verif/selftest/$c > $L/regress_$c.log 2>&1 &
 done
-python3 tools/benign.py > $L/regress_benign.log 2>&1 &
+PLSA_WORK=$W/benign python3 tools/benign.py > $L/regress_benign.log 2>&1 &
 wait
 # self-test variants (one rule instance broken each) and the rename probe
-python3 tools/selftests.py C01 C02 C03 C04 C05 > $L/regress_selftests_a.log 2>&1 &
-python3 tools/selftests.py C06 C07 C08 C09 C10 > $L/regress_selftests_b.log 2>&1 &
-python3 tools/selftests.py C11 C12 C13 C14 C15 > $L/regress_selftests_c.log 2>&1 &
-python3 tools/selftests.py C16 C17 C18 C19 C20 > $L/regress_selftests_d.log 2>&1 &
-python3 tools/rename_probe.py > $L/regress_rename.log 2>&1 &
+PLSA_WORK=$W/s0 python3 tools/selftests.py C01 C02 C03 C04 C05 > $L/regress_selftests_a.log 2>&1 &
+PLSA_WORK=$W/s1 python3 tools/selftests.py C06 C07 C08 C09 C10 > $L/regress_selftests_b.log 2>&1 &
+PLSA_WORK=$W/s2 python3 tools/selftests.py C11 C12 C13 C14 C15 > $L/regress_selftests_c.log 2>&1 &
+PLSA_WORK=$W/s3 python3 tools/selftests.py C16 C17 C18 C19 C20 > $L/regress_selftests_d.log 2>&1 &
+PLSA_WORK=$W/benign python3 tools/rename_probe.py > $L/regress_rename.log 2>&1 &
 wait
+rm -rf /verif/.work/par
 echo "== seeded: $(grep -c DETECTED-BY $L/regress_seeded.log) detected, $(grep -c ' missed ' $L/regress_seeded.log) missed, $(grep -c ERROR $L/regress_seeded.log) errors"
 for c in refactor2 refactor4 refactor5 refactor6 features3 features5 features6; do
   echo "== $c alarms: $(grep -c DETECTED-BY $L/regress_$c.log) of $(grep -c -E 'DETECTED-BY| missed ' $L/regress_$c.log); errors $(grep -c ERROR $L/regress_$c.log)"
